@@ -31,6 +31,7 @@ What the theorems say
                             partially fixed code.
 * `refcounts_exact`         (any variant) every screen's reference count equals the number of
                             records referencing it; with the fixes: the number of listed clients.
+* `refused_scale_changes_nothing`  an unsatisfiable SetScale leaves screen, reference and counts alone.
 * `reaping_complete`, `shutdown_leaves_nobody`, `cleanup_leaves_nobody`   progress.
 * `isolation_*`             a step of connection `i` (teardown, message, failed message, accept)
                             leaves every other record untouched, except the two intended effects
@@ -155,6 +156,13 @@ theorem refcounts_restored (ops : List Op) (i : Nat) (c : Conn) (d : Nat × Nat)
   · exact hi
   · have := (exactly_once ops i c hc hi).2.2.2.2.1
     simp [owns, this] at ho
+
+/-- a scale factor that reduces a dimension to 0 is refused ("leaving things alone"): the client
+keeps its screen and, with it, its reference — nothing in the world changes -/
+theorem refused_scale_changes_nothing (w : World) (i k : Nat) (h : 64 / k = 0 ∨ 48 / k = 0) :
+    setScale w i k = w := by
+  unfold setScale scaleDims
+  rcases h with h | h <;> simp [h]
 
 /-- **progress 1**: one pass of the reaping loop of `rfbProcessEvents` hands every listed client
 whose socket is closed to `rfbClientConnectionGone` (any variant, any reachable world) -/
